@@ -26,6 +26,7 @@ type Config struct {
 	MaxSteps      int
 	MaxDepth      int
 	MaxAlloc      int
+	IgnoreGoInThreads bool
 	MaxSymIndex   int
 	ConcretizeMax int
 	MaxPaths      int
@@ -158,6 +159,8 @@ func applyCfg(c *Config, kv map[string]string, tier string) error {
 			c.ConcretizeMax = n
 		case "ignorego":
 			c.IgnoreGo = v == "1" || v == "true"
+		case "ignoregothreads":
+			c.IgnoreGoInThreads = v == "1" || v == "true"
 		case "solver":
 			c.Solver = v
 		case "timeout":
